@@ -94,6 +94,28 @@ fn piece_strategy() -> BoxedStrategy<Vec<WOp>> {
             WOp::Flush { slot: 1 },
             WOp::CfbFlush,
         ]),
+        // mini streams: freed mini sectors are reused out of order (chains that run backwards
+        // through the mini stream), such a chain is released again, and new ones are allocated
+        1 => (0u8..3, small(), small(), prop_oneof![small(), large()], small()).prop_map(|(n, a, b, c, d)| vec![
+            WOp::CreateStream { slot: 0, name: n },
+            WOp::WriteAll { slot: 0, data: a },
+            WOp::Flush { slot: 0 },
+            WOp::CreateStream { slot: 1, name: (n + 1) % 3 },
+            WOp::WriteAll { slot: 1, data: b },
+            WOp::Flush { slot: 1 },
+            WOp::Close { slot: 0 },
+            WOp::Close { slot: 1 },
+            WOp::RemoveStream { name: n },
+            WOp::CreateStream { slot: 0, name: (n + 2) % 3 },
+            WOp::WriteAll { slot: 0, data: c },
+            WOp::Flush { slot: 0 },
+            WOp::Close { slot: 0 },
+            WOp::RemoveStream { name: (n + 2) % 3 },
+            WOp::CreateStream { slot: 0, name: n },
+            WOp::WriteAll { slot: 0, data: d },
+            WOp::Flush { slot: 0 },
+            WOp::CfbFlush,
+        ]),
         // one stream grown past 64 KiB: in a version-3 file the first FAT sector (128 entries)
         // fills up and a second one is appended in the middle of a write-back
         1 => (slot.clone(), 0u8..3, proptest::sample::select(vec![30_000u32, 40_000, 61_000]), proptest::sample::select(vec![6_000u32, 30_000, 36_000]), any::<u8>()).prop_map(|(slot, name, a, b, seed)| vec![
